@@ -24,12 +24,14 @@ func (e *Enc) script(o *Obligation) string {
 		b.WriteString("; clause: " + strings.ReplaceAll(o.Src, "\n", " ") + "\n")
 	}
 	var asserts []string
-	if o.Cover || o.block == nil {
+	if o.block == nil {
 		asserts = e.asserts // vacuity: all assumptions of the function together
 		if !o.Cover {
 			asserts = e.asserts[:o.nAsserts]
 		}
 	} else {
+		// (cover obligations too: block-local assumptions of blocks that are not on a path to the
+		// covered point are unguarded facts about other paths and must not be mixed in)
 		// only assumptions made on some path to the obligation's block (and global facts)
 		anc := e.ancestors(o.block)
 		for i, a := range e.asserts[:o.nAsserts] {
